@@ -340,7 +340,18 @@ func (w *world) gen(t *testing.T, rng *rand.Rand, kind int) *op {
 			o.cheque = &chequePkg.SignedCheque{Cheque: chequePkg.Cheque{Recipient: recipient, Beneficiary: o.issuer}, Signature: o.cheque.Signature}
 			payout = nil
 		case kTamperedPayout:
-			payout = new(big.Int).Add(payout, randAmount(rng))
+			two256 := new(big.Int).Lsh(big.NewInt(1), 256)
+			switch rng.Intn(4) {
+			case 0:
+				// the signed amount raised by a multiple of 2^256: the same 32-byte word
+				payout = new(big.Int).Add(payout, new(big.Int).Mul(two256, big.NewInt(1+int64(rng.Intn(3)))))
+				o.Note = "signed payout + k*2^256"
+			case 1:
+				payout = new(big.Int).Sub(payout, two256)
+				o.Note = "signed payout - 2^256 (negative)"
+			default:
+				payout = new(big.Int).Add(payout, randAmount(rng))
+			}
 			o.cheque = &chequePkg.SignedCheque{Cheque: chequePkg.Cheque{Recipient: recipient, Beneficiary: o.issuer, CumulativePayout: payout}, Signature: o.cheque.Signature}
 		}
 	}
